@@ -14,6 +14,6 @@ ENTRY = {
         "design_ref": "DESIGN.md section 4 C06",
         "note": "Trusted: TLC, conc()/abs() of the harness (label dictionary, request-side case), order-independence of the spec (checked by TLC). A disagreement on a live filter is reproduced by rehearsing its history on a fresh one. "
                 "Each call runs under a watchdog and is re-run alone before being reported as non-termination. "
-                "Open finding C06:canon-in-table-without-value-forwarded (pipeline level).",
+                "Six open findings (known_findings/C06.jsonl), each with a proposed fix; a disagreement is attributed to a finding by the spec's own admitted-deviation sets.",
         "technique": "TLA+ spec enumerated and model-checked by TLC (invariants + liveness); exhaustive vector replay into real code + TLC trace validation",
     }
